@@ -20,17 +20,18 @@ CONSTANTS RecentDays,    \* fetchrecentrefsdays + pruneoffsetdays (default 7 + 3
           EmitSel        \* generation only: rotates which flag is emitted for states where nothing is prunable
 
 VARIABLES staged,   \* path -> blob staged but not committed ("same" = index equals HEAD)
+          stagedIn, \* the worktree whose index holds the staged changes ("main" | "linked")
           stashed,  \* oids referenced by stash commits
           pruned,   \* oids deleted by prune (observation); a behaviour ends with its prune
           wt,       \* branch checked out in the linked worktree, "none" when there is none
           rt2       \* branch -> commit of refs/remotes/other/<branch>: remote-tracking refs of a second remote
                     \* (not the one prune verifies against); at most one of them is set
 VARIABLE done
-pvars == <<rvars, staged, stashed, pruned, wt, rt2, done, steps, hist>>
-PView == <<rvars, staged, stashed, wt, rt2, done>>
+pvars == <<rvars, staged, stagedIn, stashed, pruned, wt, rt2, done, steps, hist>>
+PView == <<rvars, staged, stagedIn, stashed, wt, rt2, done>>
 
 Clean == \A p \in Paths : staged[p] = "same"
-PInit == RepoInit /\ staged = [p \in Paths |-> "same"] /\ stashed = {} /\ pruned = {} /\ wt = "none" /\ rt2 = [b \in Branches |-> NoCommit] /\ done = FALSE
+PInit == RepoInit /\ staged = [p \in Paths |-> "same"] /\ stagedIn = "main" /\ stashed = {} /\ pruned = {} /\ wt = "none" /\ rt2 = [b \in Branches |-> NoCommit] /\ done = FALSE
 
 TreeOids(c) == IF c = NoCommit THEN {} ELSE {commits[c].tree[p] : p \in Paths} \cap Oids
 WtOids      == IF wt = "none" THEN {} ELSE TreeOids(br[wt])
@@ -67,40 +68,42 @@ Reasons == {"unpushed", "stash", "index", "head", "worktree", "recent-local", "r
 SoleReasons(f) == {n \in Reasons : \E o \in Reason(n, f) \cap LocalPresent : \A m \in Reasons \ {n} : o \notin Reason(m, f)}
 
 \* ---- dirty state (only on top of a finished history) -----------------------
-Stage(p, o) ==
-  /\ br[head] # NoCommit /\ staged[p] = "same" /\ TreeOf(br[head])[p] # o
-  /\ staged' = [staged EXCEPT ![p] = o]
+Stage(p, o, where) ==    \* git add in the main or in the linked worktree; the index of every worktree counts
+  /\ (where = "linked" => wt # "none") /\ (~Clean => where = stagedIn)
+  /\ LET tip == IF where = "linked" THEN br[wt] ELSE br[head] IN
+     /\ tip # NoCommit /\ staged[p] = "same" /\ TreeOf(tip)[p] # o
+  /\ staged' = [staged EXCEPT ![p] = o] /\ stagedIn' = where
   /\ local' = IF local[o] = "absent" THEN [local EXCEPT ![o] = "valid"] ELSE local
   /\ UNCHANGED <<commits, br, rr, rt, head, server, everRemote, stashed, pruned, wt, rt2>>
-  /\ Log([a |-> "stage", p |-> p, oid |-> o])
+  /\ Log([a |-> "stage", p |-> p, oid |-> o, where |-> where])
 
 Stash(p, o) ==            \* edit p to content o, git stash
   /\ br[head] # NoCommit /\ Clean /\ TreeOf(br[head])[p] \notin {o, "none"}
   /\ stashed' = stashed \cup {o}
   /\ local' = IF local[o] = "absent" THEN [local EXCEPT ![o] = "valid"] ELSE local
-  /\ UNCHANGED <<commits, br, rr, rt, head, server, everRemote, staged, pruned, wt, rt2>>
+  /\ UNCHANGED <<commits, br, rr, rt, head, server, everRemote, staged, stagedIn, pruned, wt, rt2>>
   /\ Log([a |-> "stash", p |-> p, oid |-> o])
 
 AddWorktree(b) ==        \* git worktree add ../linked b  (a branch can be checked out only once)
   /\ wt = "none" /\ br[b] # NoCommit /\ b # head /\ wt' = b
-  /\ UNCHANGED <<commits, br, rr, rt, head, local, server, everRemote, staged, stashed, pruned, rt2>>
+  /\ UNCHANGED <<commits, br, rr, rt, head, local, server, everRemote, staged, stagedIn, stashed, pruned, rt2>>
   /\ Log([a |-> "worktree", b |-> b])
 
 \* a fetch from a second remote left refs/remotes/other/b at b's present commit
 OtherRemoteRef(b) ==
   /\ br[b] # NoCommit /\ \A x \in Branches : rt2[x] = NoCommit
   /\ rt2' = [rt2 EXCEPT ![b] = br[b]]
-  /\ UNCHANGED <<commits, br, rr, rt, head, local, server, everRemote, staged, stashed, pruned, wt>>
+  /\ UNCHANGED <<commits, br, rr, rt, head, local, server, everRemote, staged, stagedIn, stashed, pruned, wt>>
   /\ Log([a |-> "otherremote", b |-> b])
 
 ServerLoses(o) ==
   /\ o \in server /\ server' = server \ {o}
-  /\ UNCHANGED <<commits, br, rr, rt, head, local, everRemote, staged, stashed, pruned, wt, rt2>>
+  /\ UNCHANGED <<commits, br, rr, rt, head, local, everRemote, staged, stagedIn, stashed, pruned, wt, rt2>>
   /\ Log([a |-> "serverloses", oid |-> o])
 
 Switch(b) ==             \* git checkout b
   /\ Clean /\ br[b] # NoCommit /\ head # b /\ b # wt /\ head' = b
-  /\ UNCHANGED <<commits, br, rr, rt, local, server, everRemote, staged, stashed, pruned, wt, rt2>>
+  /\ UNCHANGED <<commits, br, rr, rt, local, server, everRemote, staged, stagedIn, stashed, pruned, wt, rt2>>
   /\ Log([a |-> "switch", b |-> b])
 
 \* ---- the verdict action ------------------------------------------------------
@@ -115,17 +118,17 @@ Prune(f, from) ==        \* from: the worktree the command is run in ("main" | "
         /\ pruned' = pruned \cup del /\ done' = TRUE
         /\ Log([a |-> "prune", flags |-> f, from |-> from, sole |-> SoleReasons(f), mustRetain |-> must \cap LocalPresent, allowed |-> allowed,
                 localBefore |-> LocalPresent, reachable |-> Reachable, serverHas |-> server, expectDeleted |-> del])
-  /\ UNCHANGED <<commits, br, rr, rt, head, server, everRemote, staged, stashed, wt, rt2>>
+  /\ UNCHANGED <<commits, br, rr, rt, head, server, everRemote, staged, stagedIn, stashed, wt, rt2>>
 
 Keep == ~done /\ UNCHANGED done
-Hist == Keep /\ Clean /\ UNCHANGED <<staged, stashed, pruned, wt, rt2>>
+Hist == Keep /\ Clean /\ UNCHANGED <<staged, stagedIn, stashed, pruned, wt, rt2>>
 \* the branch of the linked worktree cannot be checked out (committed to) in the main one
 PCommit(b, p, blob, g) == Hist /\ b # wt /\ Commit(b, p, blob, g)
 PCommitTree(b, t, g)   == Hist /\ b # wt /\ CommitTree(b, t, g)
 PMerge(b, o)           == Hist /\ b # wt /\ Merge(b, o)
 PPush(S)               == Hist /\ Push(S, "git-push", {}, FALSE)
 POtherPush(b)          == Hist /\ OtherPush(b)
-PStage(p, o)           == Keep /\ Stage(p, o)
+PStage(p, o, where)    == Keep /\ Stage(p, o, where)
 PStash(p, o)           == Keep /\ Stash(p, o)
 PServerLoses(o)        == Keep /\ ServerLoses(o)
 PSwitch(b)             == Keep /\ Switch(b)
@@ -138,7 +141,7 @@ PNext == \/ \E b \in Branches, p \in Paths, blob \in Blobs, g \in Ages : PCommit
          \/ \E b, o \in Branches : PMerge(b, o)
          \/ \E S \in SUBSET Branches : PPush(S)
          \/ \E b \in Branches : POtherPush(b)
-         \/ \E p \in Paths, o \in Oids : PStage(p, o)
+         \/ \E p \in Paths, o \in Oids, where \in {"main", "linked"} : PStage(p, o, where)
          \/ \E p \in Paths, o \in Oids : PStash(p, o)
          \/ \E o \in Oids : PServerLoses(o)
          \/ \E b \in Branches : PSwitch(b)
